@@ -633,7 +633,17 @@ impl ImageXObject {
                 }).unwrap_or(filters.len());
                 
                 let (normal_filters, image_filters) = filters.split_at(end);
-                let data = resolve.get_data_or_decode(id, file_range.clone(), normal_filters)?;
+                let data = if image_filters.is_empty() {
+                    resolve.get_data_or_decode(id, file_range.clone(), normal_filters)?
+                } else {
+                    // a partial decode must neither populate nor use the stream cache,
+                    // which is keyed by the object alone
+                    let mut data = resolve.stream_data(id, file_range.clone())?;
+                    for filter in normal_filters {
+                        data = t!(decode(&data, filter)).into();
+                    }
+                    data
+                };
         
                 match image_filters {
                     [] => Ok((data, None)),
